@@ -88,7 +88,9 @@ struct Ledger {
     static int alloc_cb(void *d, void **m, size_t n) {
         Ledger *l = (Ledger *)d;
         size_t idx = l->allocs++;
-        if (idx < 64 && (l->failmask >> idx) & 1) { l->failed++; *m = nullptr; return -ENOMEM; }
+        // a failing allocator reports failure through its return value; what it leaves in *m is its own business: NULL, nothing at all
+        // (the caller's variable keeps what it held), or a pointer that must not be used
+        if (idx < 64 && (l->failmask >> idx) & 1) { l->failed++; switch ((idx + l->blocksize) % 3) { case 0: *m = nullptr; break; case 1: break; default: *m = (void *)(uintptr_t)0x10; } return -ENOMEM; }
         *m = malloc(n);
         memset(*m, 0xd7, n);
         l->live.push_back(*m);
@@ -114,7 +116,7 @@ extern "C" __attribute__((used)) void *vp_hmalloc(size_t n) {
     void *m = nullptr;
     int rc = Ledger::alloc_cb(l, &m, n);
     if (rc == 0 && (l->allocs & 1)) errno = ENOMEM;
-    if (rc != 0) errno = ENOMEM;
+    if (rc != 0) { errno = ENOMEM; return nullptr; }   // malloc() itself has one way to fail
     return m;
 }
 extern "C" __attribute__((used)) void vp_hfree(void *m) {
